@@ -237,10 +237,17 @@ pub fn scenarios(tier: Tier) -> Vec<Scenario> {
         // delay profiles: per-node in/out speeds
         let masks: Vec<u32> = match tier {
             Tier::Quick => vec![0b1, 0b10, 0b1010, 0b1111_1111],
-            Tier::Thorough => (1..(1u32 << (2 * n))).step_by(if n == 4 { 1 } else { 7 }).collect(),
+            Tier::Thorough => (1..(1u32 << (2 * n))).step_by(if n == 4 { 1 } else { 11 }).collect(),
         };
+        // (delays strictly below DELTA = 250 ms: at exactly DELTA a block's last shred and the
+        // slot's timeout fall on the same instant and the outcome is a same-instant tie)
+        let mut seen_matrices: BTreeSet<Vec<bool>> = BTreeSet::new();
         for m in masks {
-            for slow_ms in tier.pick(vec![100u64], vec![100, 250]) {
+            let matrix: Vec<bool> = (0..n).flat_map(|a| (0..n).map(move |b| a != b && ((m >> a & 1 == 1) || (m >> (n + b) & 1 == 1)))).collect();
+            if !seen_matrices.insert(matrix) {
+                continue;
+            }
+            for slow_ms in tier.pick(vec![100u64], vec![100, 240]) {
                 let mut s = base(stakes.clone());
                 s.slow_out = (0..n).map(|i| m >> i & 1 == 1).collect();
                 s.slow_in = (0..n).map(|i| m >> (n + i) & 1 == 1).collect();
@@ -289,7 +296,22 @@ fn run_liveness_prefixes(report: &Report, tier: Tier) -> Value {
         second.prefix.push(PrefixOp::TimersOnce(0));
         second.prefix.push(PrefixOp::DeliverAll);
     }
+    // Byzantine leader proposes in slots 1 and 2 (two versions each, children on either version)
+    let two_slots = ClusterSys::new(
+        "K4-byzantine-leader-two-slots",
+        k4.clone(),
+        vec![1, 2, 3],
+        0,
+        ClusterAlphabet {
+            byz_votes: [byz_votes_at(0, 1, &[(VK::Notar, 0), (VK::Skip, 0)]), byz_votes_at(0, 2, &[(VK::Notar, 0), (VK::Notar, 1)])].concat(),
+            forge: vec![],
+            blocks: vec![(b(1, 0), g), (b(1, 1), g), (b(2, 0), b(1, 0)), (b(2, 1), b(1, 1))],
+            invalid: vec![],
+            windows: vec![0],
+        },
+    );
     let systems = vec![
+        two_slots,
         second,
         ClusterSys::new(
             "K4-byzantine-leader-equivocates-small-noise",
@@ -338,7 +360,7 @@ fn run_liveness_prefixes(report: &Report, tier: Tier) -> Value {
         }
         std::process::exit(0);
     }
-    let depths = [tier.pick(3, 8), tier.pick(4, 8), tier.pick(2, 7), tier.pick(3, 7)];
+    let depths = [tier.pick(3, 7), tier.pick(3, 8), tier.pick(4, 8), tier.pick(2, 7), tier.pick(3, 7)];
     let mut per = Vec::new();
     for (inner, depth) in systems.into_iter().zip(depths) {
         let name = inner.name.clone();
@@ -365,7 +387,48 @@ fn run_liveness_prefixes(report: &Report, tier: Tier) -> Value {
     json!(per)
 }
 
+/// Debugging aid: C02_SLOW_ALL=<ms>,<slot> runs the n=4 all-links-slow scenario and prints the
+/// consensus messages seen on the wire around the slot.
+fn debug_slow(spec: &str) {
+    let (ms, slot) = spec.split_once(',').unwrap();
+    let (ms, slot): (u64, u64) = (ms.parse().unwrap(), slot.parse().unwrap());
+    let rt = runtime(7);
+    rt.block_on(async {
+        let cluster = Cluster::start(&[10, 10, 10, 10], Duration::from_millis(1), &BTreeSet::new());
+        {
+            let mut g = cluster.hub.inner.lock().unwrap();
+            for a in 0..4 {
+                for b in 0..4 {
+                    g.delay[a][b] = Duration::from_millis(if a == b { 0 } else { ms });
+                }
+            }
+        }
+        tokio::time::sleep(Duration::from_millis(16_000)).await;
+        let g = cluster.hub.inner.lock().unwrap();
+        let mut lines: Vec<(u64, String)> = Vec::new();
+        for (t, from, v) in &g.votes {
+            if v.slot().inner() >= slot.saturating_sub(4) && v.slot().inner() <= slot {
+                lines.push((*t, format!("t={t} v{from} vote {:?} slot {}", crate::nodesys::vote_tag(v), v.slot().inner())));
+            }
+        }
+        for (t, from, c) in &g.certs {
+            if c.slot().inner() >= slot.saturating_sub(4) && c.slot().inner() <= slot {
+                lines.push((*t, format!("t={t} v{from} CERT {:?} slot {}", crate::pooldrv::cert_kind(c), c.slot().inner())));
+            }
+        }
+        lines.sort();
+        lines.dedup();
+        for (_, l) in lines {
+            println!("{l}");
+        }
+    });
+}
+
 pub fn run(tier: Tier) -> i32 {
+    if let Ok(spec) = std::env::var("C02_SLOW_ALL") {
+        debug_slow(&spec);
+        return 0;
+    }
     let report = Report::new("C02", tier, "fault_enumeration");
     let live = run_liveness_prefixes(&report, tier);
     let scs = scenarios(tier);
